@@ -618,7 +618,6 @@ func init() {
 		Assumptions: commonAssumptions})
 }
 
-
 // deliveredMessageProvenance: the message handed to subscription handlers reports, as its sender, the peer id decoded
 // from the verified packet's own sender field, and carries the verified inner message.
 func deliveredMessageProvenance(c *an.Check) {
@@ -641,7 +640,6 @@ func deliveredMessageProvenance(c *an.Check) {
 	}
 	c.Require(ok, "PROVENANCE", "floodsub delivers messages attributed to the verified signer", hvm, "", 1, "NewMessage(IDB58Decode(pkt.GetFromPeerId()), verified inner)", why)
 }
-
 
 // writePacketBlocking: the per-peer send helper never drops a packet silently: its send on the peer's queue is a blocking
 // select (no default case) whose only alternative is the stream context ending. The one-shot Subscribe=false notice and
@@ -671,7 +669,6 @@ func writePacketBlocking(c *an.Check) {
 	}
 	c.Require(ok, "MUSTCALL", "floodsub writePacket never drops a packet silently", wp, "", 1, "blocking send (alternatives: context done only)", why)
 }
-
 
 // subscriptionReleaseDiscipline: releasing a local subscription removes exactly that subscription from its channel (never
 // its siblings), and the decision to wake the router ("the channel may now be empty") is taken on the state AFTER the
